@@ -244,11 +244,13 @@ CLAIMS['C16'] = dict(category='proof', ref='5 Core F, 8 C16',
          "ReadWait/ReadPeek/ReadCommit, Close and ReadFrom iteration of Model/Ring, under any interleaving, answers what RingA.waitSpace/commitP/waitData/commitC/close "
          "answer on (pseq-cseq, done) at one own step of the call, has exactly that effect, and is parked at quiescence iff that function answers none), "
          "C16_ring_steps_use_ringA (each life-cycle ring step is enabled iff its RingA function answers), C16_out_ring_one_producer (wmu: the outgoing ring sees one "
-         "producer at a time; for the code: C17_wrap_one_producer). STILL NOT COVERED, found by the derivation: RingA tests done and the cursors atomically, "
-         "buffer.go at two statements of a call - a producer already inside a ring call when the ring is closed may still commit and return ok "
-         "(C15_ringA_gap_late_commit), ReadWait may answer end-of-stream although the bytes arrived between its two tests (C15_ringA_gap_eof_with_data); "
-         "the model has neither interleaving, so C16_late_delivery_fails_fast speaks of ring calls that START after the close, and the teardown theorems "
-         "do not cover a late commit into a closed ring (their conclusions do not mention ring contents; argued harmless in NOTES-ringlife.md, not proved); "
+         "producer at a time; for the code: C17_wrap_one_producer). The derivation found finding F9 (buffer.go tested done and the cursors at two "
+         "statements of a wait loop: a producer woken by Close could still commit, ReadWait could answer end-of-stream with the bytes there), repaired by repository commit "
+         "1e10a9b; with the repaired ring the contract is exact where the model needs it (consumer end-of-stream = RingA.waitData eof, producer waitForWriteSpace ok = "
+         "RingA.waitSpace ok at ONE state; every producer call not past its last isDone test fails once done is set - the ring-level content of "
+         "C16_late_delivery_fails_fast for calls in progress); Model/Lifecycle.lean needed no change. STILL NOT COVERED: Close between a committing call's last isDone "
+         "test and its cursor store (C15_commit_window) - the model has no commit into a closed ring; nobody reads such bytes from an outgoing ring, on an incoming ring "
+         "the commit races stop() (conclusions of the teardown theorems do not mention ring contents; NOTES-ringlife.md section 3); "
          "one connection is modelled, the broker around it is environment. OPEN (finding F8, "
          "with C19): 'ended' presupposes that the end can be noticed - a connection whose client has stopped reading and kept sending until BOTH rings are "
          "full has its receiver waiting because the incoming ring is completely full, no read pending, no deadline armed; keep-alive never fires on it (scenario selffull keepalive: "
@@ -261,7 +263,7 @@ CLAIMS['C14'] = dict(category='proof', ref='5 Core D, 8 C14',
     note='Trusted: Lean kernel; axioms propext/Classical.choice/Quot.sound only; Go harness (model-guided scheduler at the verifYield marks) + line protocol + fact extractor; Go runtime semantics assumed by the model: sync.Mutex, sync.Cond, sequentially consistent atomics, scheduler fairness for liveness (see evidence.assumptions, NOTES-ring.md)')
 
 CLAIMS['C15'] = dict(category='proof', ref='5 Core D, 8 C15',
-    text='Lean 4 theorems over all programs and schedules of the repaired buffer: a mutex is held only inside its critical section (never by a returned thread), no lost wake-up (a parked waiter whose condition is met has a pending broadcaster), Close is a straight line of 7 own steps blocked only by a held mutex whose holder is enabled and releases within 3 steps, done exits every wait loop, a termination measure strictly decreasing with every enabled step (no livelock; at most mu(init) enabled steps in any schedule), and at quiescence every unfinished call waits legitimately (all returned once Close was called); ReadFrom (8f682d1) never hands its reader an empty slice, its WriteCommit never waits, and it is kept from reading only by a completely full, open ring (C15_ReadFrom_reads_nonempty, C15_ReadFrom_waits_only_when_full; before the repair: by less than a read block free, finding F3); AT CALL LEVEL (the contract the connection life-cycle model of C16 is built on, derived here): through absRing = (pseq - cseq, done) every step of the program is RingA.commitP (+n, producer only, buf+n <= cap before it), RingA.commitC (-n, consumer only, n <= buf), RingA.close, or invisible (C15_step_refines_ringA, C15_single_writer); a complete Write/WriteWait/WriteCommit resp. ReadWait/ReadPeek/ReadCommit resp. Close, from call to return under ANY interleaving, has the outcome and the net effect of the corresponding RingA function at one own step - ok only if the ring was open when the call started and (producer) exactly l bytes are committed with buf+l <= cap at that step, end-of-stream only with done set, ErrBufferFull iff the request exceeds the ring - and at quiescence the call is unfinished iff it is parked and that function answers none (C15_call_refines_ringA_producer, _consumer, _close, C15_parked_iff_guard_false); one iteration of ReadFrom is wait-for-one-byte / read at most cap-buf / commit that fits / exit through its deferred Close (C15_readfrom_refines_ringA). NOT the atomic RingA in one respect, exhibited as closed executions: done and the cursors are tested at two statements of a call, so a producer woken by (or past its isDone test before) Close commits and returns ok if the consumer has freed space meanwhile, and ReadWait answers end-of-stream although the bytes were committed between its cursor test and its done test (C15_ringA_gap_late_commit, C15_ringA_gap_eof_with_data; by the letter of "every blocked call returns with end-of-stream" the first is a deviation of buffer.go, harmless for a ring nobody reads any more); scheduler fairness is the remaining hypothesis; tie as C14 with the lock probe compared after every step and a fair finish phase (Close, later calls) on the real buffer',
+    text='Lean 4 theorems over all programs and schedules of the repaired buffer: a mutex is held only inside its critical section (never by a returned thread), no lost wake-up (a parked waiter whose condition is met has a pending broadcaster), Close is a straight line of 7 own steps blocked only by a held mutex whose holder is enabled and releases within 4 steps, done exits every wait loop, a termination measure strictly decreasing with every enabled step (no livelock; at most mu(init) enabled steps in any schedule), and at quiescence every unfinished call waits legitimately (all returned once Close was called); ReadFrom (8f682d1) never hands its reader an empty slice, its WriteCommit never waits, and it is kept from reading only by a completely full, open ring (C15_ReadFrom_reads_nonempty, C15_ReadFrom_waits_only_when_full; before the repair: by less than a read block free, finding F3); AT CALL LEVEL (the contract the connection life-cycle model of C16 is built on, derived here): through absRing = (pseq - cseq, done) every step of the program is RingA.commitP (+n, producer only, buf+n <= cap before it), RingA.commitC (-n, consumer only, n <= buf), RingA.close, or invisible (C15_step_refines_ringA, C15_single_writer); a complete Write/WriteWait/WriteCommit resp. ReadWait/ReadPeek/ReadCommit resp. Close, from call to return under ANY interleaving, has the outcome and the net effect of the corresponding RingA function at one own step - ok only if the ring was open when the call started and (producer) exactly l bytes are committed with buf+l <= cap at that step, end-of-stream only with done set, ErrBufferFull iff the request exceeds the ring - and at quiescence the call is unfinished iff it is parked and that function answers none (C15_call_refines_ringA_producer, _consumer, _close, C15_parked_iff_guard_false); one iteration of ReadFrom is wait-for-one-byte / read at most cap-buf / commit that fits / exit through its deferred Close (C15_readfrom_refines_ringA). EXACT since the repair of finding F9 (repository commit 1e10a9b; found by this derivation, reproduced on the real buffer through the yield hooks, corpus/ring/f9-*.ops): buffer.go tested done and the cursor of the other side at two statements of every wait loop, so a producer woken by Close that found room committed and returned success after Close had returned, and Read/ReadPeek/ReadWait answered end-of-stream with the awaited bytes buffered (closed executions of the program before the repair, and the repaired program on the same schedules: C15_old_ring_late_commit, C15_old_ring_eof_with_data); now the end-of-stream answer of a consumer IS RingA.waitData = eof and the successful waitForWriteSpace of a producer IS RingA.waitSpace = ok on (pseq-cseq, done) of ONE state of the call, and once done is set every producer call that has not passed its last isDone test - not begun, parked, woken, in progress - fails (part (2) of C15_call_refines_ringA_producer: the letter of "Close makes every blocked or later call return with end-of-stream"; the specification stream and the oracle were tightened to that letter first: Spec.Ring.eofOk/doomed). LEFT, named and exhibited (C15_commit_window, closed execution of the repaired program): a committing call stores the cursor a few statements after that last test (Write: after its byte copy); Close in between lets the commit land in a closed ring - closing that window needs the done store and (test + store) under one mutex, a different locking scheme; scheduler fairness is the remaining hypothesis; tie as C14 with the lock probe compared after every step and a fair finish phase (Close, later calls) on the real buffer',
     technique='machine-checked proof in Lean 4 (invariants of a concurrent small-step program, for all schedules) + differential correspondence of schedules on the real buffer',
     note='Trusted: Lean kernel; axioms propext/Classical.choice/Quot.sound only; Go harness (model-guided scheduler at the verifYield marks) + line protocol + fact extractor; Go runtime semantics assumed by the model: sync.Mutex, sync.Cond, sequentially consistent atomics, scheduler fairness for liveness (see evidence.assumptions, NOTES-ring.md)')
 CLAIMS['C18'] = dict(category='other', ref='5 Core G, 8 C18',
